@@ -587,12 +587,25 @@ def gen_cli(rng):
         if tb_not_last(prio):
             prio = prio[1:]
     return {"roots": roots, "files": files, "isolate": isolate, "hlinks": rng.chance(1, 2), "transform": rng.chance(1, 4),
-            "mode": mode, "prio": prio}
+            "mode": mode, "prio": prio,
+            # how the input roots are named: relative to --base-dir, itself relative to the working directory of `group`
+            "basedir": rng.choice(["default", "dot", "rel", "rel_nested", "dotdot", "abs"])}
 
 
 def run_cli(ctx, spec, model_bin, fclones, tree, count=True):
-    """-> None or (kind, record, text)"""
-    shutil.rmtree(tree, ignore_errors=True)
+    """-> None or (kind, record, text).  Layout: <clidir>/w/tree/<roots>; `group` runs from a working directory
+    chosen by spec["basedir"] with the matching --base-dir; the dedupe commands run from <clidir>/other."""
+    clidir = tree
+    shutil.rmtree(clidir, ignore_errors=True)
+    tree = os.path.join(clidir, "w", "tree")
+    other = os.path.join(clidir, "other")
+    os.makedirs(other)
+    bmode = spec.get("basedir", "default")
+    gcwd, bopts = {"default": (tree, []), "dot": (tree, ["--base-dir", "."]),
+                   "rel": (os.path.join(clidir, "w"), ["--base-dir", "tree"]),
+                   "rel_nested": (clidir, ["--base-dir", "w/tree"]),
+                   "dotdot": (os.path.join(tree, spec["roots"][0]), ["--base-dir", ".."]),
+                   "abs": (other, ["--base-dir", tree])}[bmode]
     roots = spec["roots"]
     for r in roots:
         os.makedirs(os.path.join(tree, r, "d"))
@@ -626,7 +639,7 @@ def run_cli(ctx, spec, model_bin, fclones, tree, count=True):
     for p in prio:
         popts += ["--priority", PRIO_NAMES[p]]
     env = dict(os.environ, RAYON_NUM_THREADS="2")
-    g = sh([fclones, "group"] + gopts + roots, tree, env=env)
+    g = sh([fclones, "group"] + bopts + gopts + roots, gcwd, env=env)
     if g.returncode != 0:
         raise RuntimeError("fclones group failed: " + g.stderr[-500:])
     report_h = g.stdout
@@ -635,7 +648,7 @@ def run_cli(ctx, spec, model_bin, fclones, tree, count=True):
     plain = list(lines)
     plain[ci] = "# Command: fclones group " + " ".join(roots)      # a `group` command without the options
     report_0 = "\n".join(plain)
-    a = sh([fclones, "remove", "--dry-run"] + popts, tree, stdin=report_h, env=env)
+    a = sh([fclones, "remove", "--dry-run"] + popts, other, stdin=report_h, env=env)
     n_inh = 0 if mode in (3, 4) else (rfo if rfo is not None else 1)
     xopts = ["-n", str(max(1, n_inh))]
     if isolate:
@@ -646,7 +659,7 @@ def run_cli(ctx, spec, model_bin, fclones, tree, count=True):
     if transform:
         xopts.append("--no-check-size")
     ts_line = [l for l in lines if l.startswith("# Timestamp:")][0][len("# Timestamp: "):]
-    b = sh([fclones, "remove", "--dry-run"] + popts + xopts, tree, stdin=report_0, env=env)
+    b = sh([fclones, "remove", "--dry-run"] + popts + xopts, other, stdin=report_0, env=env)
 
     def rms(p):
         if p.returncode != 0:
@@ -698,12 +711,15 @@ def run_cli(ctx, spec, model_bin, fclones, tree, count=True):
         ctx.count()
         ctx.distinct(("cli", json.dumps(spec, sort_keys=True)), isinstance(ra, list) and len(ra) > 0)
         ctx.bump("cli_group_options", " ".join(gopts) or "(none)")
+        ctx.bump("cli_base_dir", bmode)
+        ctx.bump("cli_base_dir x isolate", "%s%s" % (bmode, "+isolate" if isolate else ""))
         ctx.bump("cli_removed_files", len(ra) if isinstance(ra, list) else -1)
     rel = lambda l: [x.replace(tree + "/", "") for x in l] if isinstance(l, list) else l
-    rec = {"cli_spec": spec, "group_cmd": ["fclones", "group"] + gopts + roots, "priority": [PRIO_NAMES[p] for p in prio],
+    rec = {"cli_spec": spec, "group_cmd": ["fclones", "group"] + bopts + gopts + roots, "group_cwd": gcwd.replace(clidir, "<clidir>"),
+           "dedupe_cwd": "<clidir>/other", "priority": [PRIO_NAMES[p] for p in prio],
            "inherit_removed": rel(ra), "explicit_opts": [x.replace(tree + "/", "<tree>/") for x in xopts], "explicit_removed": rel(rb),
            "model_merge_removed": rel(m_merge), "model_explicit_removed": rel(m_expl), "report": report_h[:3000].replace(tree, "<tree>")}
-    shutil.rmtree(tree, ignore_errors=True)
+    shutil.rmtree(clidir, ignore_errors=True)
     if ra != rb:
         return ("inherit_mismatch", rec, "`remove` with the options only in the report header drops %s, "
                 "with the same options given explicitly %s" % (rel(ra), rel(rb)))
@@ -745,7 +761,9 @@ def run(ctx):
                 "paths, isolated roots, match_links, no_check_size, modified_before) x 5 ops; one case = one group+config; "
                 "non-trivial = the implementation drops at least one file; distinct = distinct case description. "
                 "CLI level: trees -> fclones group [--isolate] [-H] [--transform] [--rf-over k|--unique|--rf-under] -> "
-                "fclones remove --dry-run with the options inherited from the header vs. given explicitly")
+                "fclones remove --dry-run with the options inherited from the header vs. given explicitly; `group` is run with --base-dir "
+                "absent / . / relative / nested relative / .. / absolute from the matching working directory and relative roots, the "
+                "dedupe commands from another working directory")
     ctx.assumptions = ["stat() results of the members do not change between the harness's own statx calls and the calls made by fclones "
                        "(nothing else touches the scratch tree)",
                        "keep/may_drop are given to the model as per-pattern match bits computed by Pattern::matches (glob semantics "
@@ -806,7 +824,7 @@ def run(ctx):
             fails += examine(ctx, ex, res2, mo2, scratch)
             ctx.extra["exhaustive_priority_lists_len_le_2"] = len(ex)
         fclones = core.build_fclones()
-        cli_fails = cli_layer(ctx, model_bin, fclones, ctx.pick(60, 800))
+        cli_fails = cli_layer(ctx, model_bin, fclones, ctx.pick(90, 900))
         report(ctx, fails, model_bin, scratch, dev2)
         for kind, rec, text in cli_fails[:5]:
             ctx.violation({"kind": kind}, text, rec, found_input=(kind == "inherit_mismatch"))
